@@ -20,6 +20,9 @@ CLAIMED = {
  "C08": dict(cat="proof", ref="5 C08", tech=TECH,
    text="per-call step only: Server::handle_call writes nothing for a oneway call, hands back a stream without writing, or performs exactly one write of one final reply / error frame on the calling connection's writer",
    note="NOT decided: ordering across calls, multi-connection routing and exactly-once handling of pipelined calls live in the select_biased! loop of Server::run, outside any contract within reach; service answer arbitrary; send_* via contracts proved in write_path"),
+ "C18": dict(cat="model_checking", ref="5 C18", tech="bounded stand-in: Kani/CBMC harnesses over the real select_all.rs via #[path], n <= 5 futures, all other inputs fully symbolic",
+   text="BOUNDED (n <= 5 futures, quick n <= 3): for every start index (all 2^64+1 Option<usize> values) and every readiness vector the real SelectAll::poll polls in rotation order s, s+1, ... each at most once, returns the first ready one, Pending iff none; and with the server's 'start at winner+1' glue the same connection does not win twice while another is ready",
+   note="bounded in n, labelled bounded, never counted as proved; Verus cannot ingest impl Future for SelectAll; Server::run glue replicated in the harness; swap_remove reordering across closures not covered"),
  "C17": dict(cat="proof", ref="5 C17", tech=TECH,
    text="inbound and outbound buffer length <= MAX_BUFFER_SIZE on every exit; BufferOverflow only when the undelivered / pending bytes reach the limit; refused outbound message leaves pending bytes and log unchanged; proved for the production constants",
    note="assumed: vstd Vec specs, to_slice contract; serde_json heap use and Vec capacity not covered"),
@@ -37,7 +40,6 @@ NA = {
  "C20": "semantics of tokio broadcast / async-broadcast channels under task interleavings; Kani has no threads, Verus would need permission types for code we do not own",
  "C03": "not yet built (planned: unit json_bytes)",
  "C13": "not yet built (planned: unit idl_tokens)",
- "C18": "not yet built (planned: unit select_all)",
  "C19": "not yet built (planned: unit transport)",
 }
 EXTRA = os.path.join(HERE, "tools", "manifest_extra.json")
